@@ -30,40 +30,6 @@ func VerifC02Dispatch(strategy int, n int, clientLen int) {
 		r.Header.Set("X-Forwarded-For", verifrt.String("client", clientLen))
 	}
 
-	// shapes of the recorded defects (see known_findings.txt)
-	switch s := lb.strategy.(type) {
-	case *RoundRobinStrategy:
-		if n >= 4 {
-			c := s.current
-			p1 := verifAt(inWin, (c+1)%uint64(n))
-			p2 := verifAt(inWin, (c+2)%uint64(n))
-			p3 := verifAt(inWin, (c+3)%uint64(n))
-			verifrt.Known("C02-rr-three-probes-ejected", verifrt.And(p1, verifrt.And(p2, p3)))
-		}
-	case *LeastConnectionsStrategy:
-		// the first backend with the minimal gauge is inside its window: it is picked three times
-		k := false
-		for i := range bs {
-			first := inWin[i]
-			for j := range bs {
-				if j < i {
-					first = verifrt.And(first, bs[j].ActiveConnections > bs[i].ActiveConnections)
-				} else if j > i {
-					first = verifrt.And(first, bs[j].ActiveConnections >= bs[i].ActiveConnections)
-				}
-			}
-			k = verifrt.Or(k, first)
-		}
-		verifrt.Known("C02-lc-min-gauge-ejected", k)
-	default:
-		// flag-filtering strategies: no backend carries the healthy flag (an expired window is never refreshed)
-		none := true
-		for _, b := range bs {
-			none = verifrt.And(none, !b.IsHealthy)
-		}
-		verifrt.Known("C02-flag-filter-stale", none)
-	}
-
 	got := lb.findHealthyBackend(r)
 	if got != nil {
 		i := verifIndexOf(bs, got)
@@ -113,9 +79,6 @@ func VerifC02History(strategy int, k int) {
 			}
 			if got == nil {
 				done0, done1 := until[0] < 0 || now > until[0], until[1] < 0 || now > until[1]
-				verifrt.Known("C02-flag-filter-stale", strategy >= 2)
-				// least_connections with equal gauges always picks b0: ejected b0 hides healthy b1
-				verifrt.Known("C02-lc-min-gauge-ejected", strategy == 1 && !done0)
 				verifrt.Assert(!done0 && !done1, "503 after a history only if every backend is inside its unhealthy window")
 			}
 		}
